@@ -98,3 +98,41 @@ Print Assumptions C09_simple_constructor_is_model_constructor.
 Theorem C09_simple_missing_columns_rejected : forall P MU p_i, flowproperties_simple_init_missing P MU p_i = None.
 Proof. reflexivity. Qed.
 Print Assumptions C09_simple_missing_columns_rejected.
+
+(* rescale_pseudopressure regenerated from the source is the model's rescaling (same lookups, same arithmetic; the model
+   merely performs the two scalar lookups before the column lookup - as option values the order is immaterial) *)
+Lemma all_some_map_some (f : R -> option R) (g : R -> R) : forall l,
+  PyPrelude.all_some (map f l) = None \/ exists r, PyPrelude.all_some (map f l) = Some r /\ (forall x, In x l -> exists y, f x = Some y).
+Proof.
+  induction l as [|x l IH]; [right; exists []; split; [reflexivity|intros ? []]|].
+  cbn [map PyPrelude.all_some]. destruct (f x) as [y|] eqn:E; [|left; reflexivity].
+  destruct IH as [->|[r [-> H]]]; [left; reflexivity|].
+  right. exists (y :: r). split; [reflexivity|]. intros z [<-|Hz]; [exists y; exact E|now apply H].
+Qed.
+
+Lemma all_some_opt_is (l : list (option R)) : all_some_opt l = PyPrelude.all_some l.
+Proof. induction l as [|[x|] l IH]; [reflexivity| |reflexivity]. cbn. rewrite IH. reflexivity. Qed.
+
+Lemma all_some_map_post (f : R -> option R) (h : R -> R) : forall l,
+  PyPrelude.all_some (map (fun q => match f q with Some m => Some (h m) | None => None end) l)
+  = match PyPrelude.all_some (map f l) with Some r => Some (map h r) | None => None end.
+Proof.
+  induction l as [|x l IH]; [reflexivity|]. cbn [map PyPrelude.all_some]. destruct (f x) as [y|]; [|reflexivity].
+  rewrite IH. destruct (PyPrelude.all_some (map f l)); reflexivity.
+Qed.
+
+Theorem C09_rescale_is_model_rescale : forall P M p_frac p_i,
+  rescale_pseudopressure_table P M p_frac p_i
+  = match rescale_pseudopressure NumR P M p_frac p_i with Some col => Some (P, col) | None => None end.
+Proof.
+  intros. unfold rescale_pseudopressure_table, rescale_pseudopressure.
+  destruct (interp1d NumR Strict P M p_frac) as [mf|] eqn:Ef; destruct (interp1d NumR Strict P M p_i) as [mi|] eqn:Ei.
+  - change (@all_some_opt R) with PyPrelude.all_some.
+    rewrite (all_some_map_post (interp1d NumR Strict P M) (fun mq => ndiv NumR (nsub NumR mq mf) (nsub NumR mi mf))).
+    destruct (PyPrelude.all_some (map (interp1d NumR Strict P M) P)) as [col|]; [|reflexivity].
+    cbn [obind]. unfold divs, subs. rewrite map_map. reflexivity.
+  - destruct (PyPrelude.all_some (map (interp1d NumR Strict P M) P)); cbn [obind]; reflexivity.
+  - destruct (PyPrelude.all_some (map (interp1d NumR Strict P M) P)); cbn [obind]; reflexivity.
+  - destruct (PyPrelude.all_some (map (interp1d NumR Strict P M) P)); cbn [obind]; reflexivity.
+Qed.
+Print Assumptions C09_rescale_is_model_rescale.
